@@ -18,7 +18,7 @@ PROPS = {
     "C03": {
         "level": "model_checking",
         "technique": "stateless model checking of the real queue code under a controlled scheduler (DFS over all schedules within a preemption/staleness bound), linearizability oracle",
-        "legs": [{"ws": "mc", "bin": "h_spsc"}],
+        "legs": [{"ws": "mc", "bin": "h_spsc"}, {"ws": "mc", "bin": "h_conn", "args": ["--prop", "C03", "--only", "data/"]}],
         "rule": "one case = (queue type, capacity, operation counts, hand-over variant); within a case every schedule "
                 "with <= PB preemptions and <= SB stale reads is executed on the real code; an outcome is the per-thread "
                 "sequence of operation results, distinct outcomes are counted per case (a case with a single outcome would be vacuous)",
@@ -123,7 +123,7 @@ PROPS = {
     "C13": {
         "level": "model_checking",
         "technique": "stateless model checking of the real zero-copy connection attach/detach/force-remove code over the process-local storage (its pthread mutex under scheduler control)",
-        "legs": [{"ws": "mc", "bin": "h_conn"}],
+        "legs": [{"ws": "mc", "bin": "h_conn", "args": ["--only", "lifecycle/"]}],
         "rule": "one case = per-thread programs over {create_sender, create_receiver, use, drop, leak+force-remove} with matching or mismatching parameters (lifecycle cases), "
                 "or a sender thread (try_send, reclaim) against a receiver thread (receive, release) (data cases); every schedule within the bounds is executed on the real code",
         "assumptions": IXMC_ASSUME + ["pthread mutexes are modelled by the scheduler (owner tracking, blocked threads are disabled); pthread_mutex_timedlock is modelled as a blocking lock", "the dynamic storage is the process-local one; the posix shared memory storage shares the connection code (common.rs) but not the storage code"],
